@@ -982,3 +982,70 @@ Proof.
   intros Hv R. destruct (reachable_ireach v progs s R) as [x [Rx <-]].
   apply (ireach_linv v progs x Hv Rx).
 Qed.
+
+(* ---- the same statements from reachability (used verbatim by Properties_C06.v) ---- *)
+Lemma over_admission_reach v progs x : 0 <= v -> ireach v progs x -> succeeded x <= v + posts_begun x.
+Proof.
+  intros Hv R. rewrite <- (ireach_ini v progs x R).
+  exact (over_admission_of_linv x (ireach_linv v progs x Hv R)).
+Qed.
+
+Lemma counter_reach v progs x : 0 <= v -> ireach v progs x ->
+  counter (base x) = v + gPcas (g x) + gPwake (g x) - gWfast (g x) - gWslow (g x) - gTok (g x) /\
+  Z.max 0 (- counter (base x)) = NPRE (base x) + QLEN (base x) + NPOP (base x) + NADD (base x).
+Proof.
+  intros Hv R. rewrite <- (ireach_ini v progs x R).
+  exact (counter_of_linv x (ireach_linv v progs x Hv R)).
+Qed.
+
+Lemma trywait_reach v progs s t p k :
+  0 <= v -> reachable M (init v progs) s ->
+  In (FC (STryLoad p k)) (stk s t) \/ In (FC (STryCas p k)) (stk s t) ->
+  ((t < nthr s)%nat -> status_of s t = SReady) /\
+  ((stk s t = [WLoadW 0 2; FC (STryLoad p k)] /\
+    snd (step s t) = ev t (l_word 0) 22 (pc64 (counter s)) ++ (if 0 <? counter s then [] else retev t k 0) /\
+    counter (fst (step s t)) = counter s)
+   \/
+   (exists c, 0 < c /\ stk s t = [WCasW 0 c (c - 1) 3; FC (STryCas p k)] /\
+      if counter s =? c
+      then snd (step s t) = ev t (l_word 0) 73 (pc64 (c - 1)) ++ retev t k 1 /\ counter (fst (step s t)) = c - 1
+      else snd (step s t) = ev t (l_word 0) 83 (pc64 (counter s)) /\ counter (fst (step s t)) = counter s)).
+Proof.
+  intros Hv R H. pose proof (reachable_struct v progs s Hv R) as S.
+  split; [intros Ht; exact (trywait_ready s t p k S Ht H)|].
+  destruct (trywait_shape s t p k S H) as [E|[c [Hc E]]].
+  - left. split; [exact E|exact (trywait_load_step s t p k E)].
+  - right. exists c. split; [exact Hc|]. split; [exact E|exact (trywait_cas_step s t p k c E)].
+Qed.
+
+Lemma no_lost_post_reach v progs x t :
+  0 <= v -> ireach v progs x -> waiting (base x) t ->
+  counter (base x) < 0 /\
+  v + posts_effective x - succeeded x <= 0 /\
+  (0 < v + posts_begun x - succeeded x ->
+   exists u, (u < nthr (base x))%nat /\ post_unwoken (stk (base x) u) /\ status_of (base x) u = SReady).
+Proof.
+  intros Hv R. rewrite <- (ireach_ini v progs x R).
+  exact (no_lost_post_of_linv x t (ireach_linv v progs x Hv R)).
+Qed.
+
+Lemma quiescence_reach v progs x :
+  0 <= v -> ireach v progs x -> quiescent (base x) ->
+  (forall t, waiting (base x) t -> In t (mq (mem (base x)) 0)) /\
+  posts_begun x = posts_effective x /\
+  (mq (mem (base x)) 0%nat <> [] ->
+     counter (base x) = - QLEN (base x) /\ v + posts_begun x = succeeded x).
+Proof.
+  intros Hv R Q. rewrite <- (ireach_ini v progs x R).
+  exact (quiescence_of_linv x (ireach_linv v progs x Hv R) (quiescent_settled _ Q)).
+Qed.
+
+Lemma value_reach v progs x :
+  0 <= v -> ireach v progs x -> settled (base x) ->
+  counter (base x) = v + posts_begun x - succeeded x - QLEN (base x) /\
+  (mq (mem (base x)) 0%nat = [] ->
+     counter (base x) = v + posts_begun x - succeeded x /\ 0 <= counter (base x)).
+Proof.
+  intros Hv R Q. rewrite <- (ireach_ini v progs x R).
+  exact (value_of_linv x (ireach_linv v progs x Hv R) Q).
+Qed.
